@@ -43,31 +43,35 @@ def confirm(src):
 
 
 def check(seed_dir, props=None):
+    """Run the quick checks on a scratch worktree of /repo with the patch applied (the worktree is removed afterwards; /repo itself is not touched)."""
     patch = os.path.join(seed_dir, "patch.diff")
-    assert sh("git -C /repo status --porcelain --untracked-files=no").stdout.strip() == "", "/repo working tree is not clean"
     out = {}
-    a = sh(f"git -C /repo apply {patch}")
-    if a.returncode != 0:
-        return {"error": "patch does not apply: " + a.stderr[-200:]}
+    d = tempfile.mkdtemp(prefix="seedchk_")
+    wt = os.path.join(d, "wt")
     try:
+        sh(f"git -C /repo worktree add --detach -f {wt} HEAD")
+        a = sh(f"git -C {wt} apply {patch}")
+        if a.returncode != 0:
+            return {"error": "patch does not apply: " + a.stderr[-200:]}
         from concurrent.futures import ThreadPoolExecutor
 
         def one(p):
-            code = ("import sys, json; sys.path.insert(0, %r); from check import run_property; rep = run_property(%r, 'quick', '/repo'); "
+            code = ("import sys, json; sys.path.insert(0, %r); from check import run_property; rep = run_property(%r, 'quick', %r); "
                     "r, u = rep.refuted(), rep.undecided(); "
                     "print(json.dumps({'exit': 1 if r else (2 if (u or rep.errors) else 0), 'first': (f'{r[0].rule} {r[0].where}: {r[0].desc[:120]} -- {r[0].detail[:200]}' if r else "
-                    "(f'{u[0].rule} {u[0].where}: {u[0].desc[:120]} -- {u[0].detail[:120]}' if u else (str(rep.errors[0])[:200] if rep.errors else ''))), 'n_refuted': len(r)}))") % (VERIF, p)
+                    "(f'{u[0].rule} {u[0].where}: {u[0].desc[:120]} -- {u[0].detail[:120]}' if u else (str(rep.errors[0])[:200] if rep.errors else ''))), 'n_refuted': len(r)}))") % (VERIF, p, wt)
             r = subprocess.run(["/venv/bin/python", "-c", code], capture_output=True, text=True)
             try:
                 return p, json.loads(r.stdout.strip().splitlines()[-1])
             except Exception:
                 return p, {"exit": 2, "first": "checker crashed: " + r.stderr[-300:]}
 
-        with ThreadPoolExecutor(16) as ex:
+        with ThreadPoolExecutor(8) as ex:
             for p, r in ex.map(one, props or PROPS):
                 out[p] = r
     finally:
-        sh("git -C /repo checkout -- .")
+        sh(f"git -C /repo worktree remove --force {wt}")
+        shutil.rmtree(d, ignore_errors=True)
     return out
 
 
@@ -77,6 +81,8 @@ if __name__ == "__main__":
         print(json.dumps(confirm(sys.argv[2]), indent=1))
     elif cmd == "check":
         res = check(sys.argv[2], sys.argv[3:] or None)
+        if "error" in res:
+            print("ERROR", res["error"])
         for p, r in res.items():
             if isinstance(r, dict) and r.get("exit"):
                 print(p, "exit", r["exit"], r["first"])
